@@ -908,7 +908,7 @@ func c16BackEnd(a Args, rng *rand.Rand, res *Result, cases []c16Case, replay *c1
 	t1 := time.Now()
 	nbatch, nprog, per, calls := 3, 10, 5, 4
 	if a.Tier == "thorough" {
-		nbatch, nprog, per, calls = 60, 12, 12, 8
+		nbatch, nprog, per, calls = 40, 12, 12, 8
 	}
 	c16TV(a, res, t2g, filepath.Join(base, "tvgap"), []*c16Prog{c16GapProgram()}, per, calls, &off)
 	c16TV(a, res, t2g, filepath.Join(base, "tvcorner"), []*c16Prog{c16CornerProgram()}, 3*per, 3*calls, &off)
